@@ -7,6 +7,7 @@ use proptest::strategy::BoxedStrategy;
 use serde_json::{json, Value};
 use std::collections::BTreeSet;
 
+pub mod conc;
 pub mod crash;
 pub mod fault;
 pub mod keys;
@@ -186,6 +187,7 @@ pub fn replay_any(body: &Value) -> Result<Option<String>, String> {
         Some("c14") => keys::replay(body),
         Some("crash") => crash::replay(body),
         Some("fault") => fault::replay(body),
+        Some("conc") => conc::replay(body),
         Some("c02-erasure") => seq::c02_erasure_replay(body),
         Some(k) => Err(format!("unknown replay kind {}", k)),
         None => Err("replay without kind".into()),
